@@ -25,6 +25,10 @@ CHECKS = {
         "both heads and the transaction record are compared with the implementation over histories whose request sizes cluster at the fits/does-not-fit boundary for sizes 1..130 and 2^k±1. "
         "The refinement theorems to the byte FIFO are being added; until they build this is a validated model, not a proof.",
    note="memcpy modelled as list copy; sizes 0 and > 2^31 are outside the property.", ref="§5 C05"),
+ "C16": dict(cat="translation_validation", tech="Lean 4 executable model of the scanner validated against the implementation on an exhaustive small alphabet under 7 environments; equivalence theorems to the token-level spec in progress",
+   text="The C scanner (indices s/start/t, first-match environment lookup) is an executable Lean model compared with the implementation on every string over {$ ~ A _ a / : {} up to length 5 (7 thorough) "
+        "in seven environments, each call under a CPU watchdog (non-termination is a verdict). Theorems expand_terminates / expand_eq_spec are being added; until they build this is a validated model.",
+   note="HOME-unset and glued-tilde behaviour follow the code (the property leaves them open).", ref="§5 C16"),
 }
 
 NOT_YET = "check not built yet in this revision (framework under construction; see DESIGN.md §8)"
